@@ -295,7 +295,8 @@ def rule_invalidate(ctx, crate, rule="R-TES-INVALIDATE"):
     ctx.floor(rule, len(stores), 1, cfg, "stores to TabExpandedString::tab_width")
     takes = [c for c in b.calls(r"std::sync::OnceLock::<T>::take", r"std::mem::take", r"std::sync::OnceLock::<T>::new") if b.slice_args(c, [0]).has_field("expanded") or not c.args]
     for i, s in stores:
-        ok = bool(takes) and (i in [c.bb for c in takes] or b.must_pass(b.succ(i), [c.bb for c in takes]))
+        ok = bool(takes) and (i in [c.bb for c in takes] or b.must_pass(b.succ(i), [c.bb for c in takes]) or
+                              i not in b.reach([0], avoid=[c.bb for c in takes]))
         ctx.check(ok, rule, "store-invalidates", b.name, "%s:%d" % (b.file, s.get("line", 0)),
                   "every path that stores a new width also clears the cached expansion", "the width changes but the cached expansion is kept (stale text is drawn)", cfg)
         ctx.check(b.slice_rv(i, s).params() == {2}, rule, "store-value", b.name, "%s:%d" % (b.file, s.get("line", 0)), "the stored width is the parameter",
